@@ -285,6 +285,17 @@ class CursorAnalysis(object):
             lp = self.ptr(lhs)
             if lp is not None and lp[1] == 0 and is_cursor_type(dtype(lhs) or qtype(lhs)):
                 return self.assign(x, lp[0], rhs, alt, x.get('opcode'))
+            # a plain local re-assigned (d = DigitValue(*p) in a for-increment): it mirrors what it is assigned now
+            lid = self._local_id(lhs)
+            if lid is not None and x.get('opcode') == '=':
+                d_ = self.u.by_id.get(lid)
+                outs_ = self.effects(rhs, alt)
+                if d_ is not None:
+                    for s_ in outs_:
+                        s_.assoc.pop(lid, None)
+                        s_.nz = s_.nz - {lid}
+                        self._associate(d_, rhs, s_)
+                return outs_
         if k == 'UnaryOperator' and x.get('opcode') in ('++', '--'):
             p = self.ptr(kids(x)[0])
             if p is not None and p[1] == 0:
